@@ -47,10 +47,26 @@ type LoopCase struct {
 	Entry    string   `json:"entry"`  // RetryIf | RetryOnError | http.RetryOnError
 	PreDone  bool     `json:"ctx_done_at_call"`
 	Deadline bool     `json:"deadline_instead_of_cancel"`
+	// FatalKind: what the non-retriable failure is made of: "" a bespoke error; otherwise an error of that library kind
+	// (a timeout reported by the operation itself is not a reason to try again unless the caller listed it)
+	FatalKind string `json:"fatal_kind,omitempty"` // "" | timeout | notfound | unexpected
 }
 
 var errRetriable = errors.New("scripted retriable failure")
-var errFatal = errors.New("scripted fatal failure")
+var errFatalBespoke = errors.New("scripted fatal failure")
+var errFatal = errFatalBespoke
+
+func fatalFor(kind string) error {
+	switch kind {
+	case "timeout":
+		return fmt.Errorf("%w: the remote end timed out", commonerrors.ErrTimeout)
+	case "notfound":
+		return fmt.Errorf("%w: no such thing", commonerrors.ErrNotFound)
+	case "unexpected":
+		return commonerrors.ErrUnexpected
+	}
+	return errFatalBespoke
+}
 
 func genLoop(t *rapid.T) LoopCase {
 	c := LoopCase{Enabled: rapid.IntRange(0, 9).Draw(t, "enabled") > 0, Attempts: rapid.IntRange(1, 8).Draw(t, "attempts")}
@@ -64,6 +80,7 @@ func genLoop(t *rapid.T) LoopCase {
 	c.Entry = rapid.SampledFrom([]string{"RetryIf", "RetryOnError", "http.RetryOnError"}).Draw(t, "entry")
 	c.PreDone = rapid.IntRange(0, 11).Draw(t, "predone") == 0
 	c.Deadline = rapid.Bool().Draw(t, "deadline")
+	c.FatalKind = rapid.SampledFrom([]string{"", "", "timeout", "timeout", "notfound", "unexpected"}).Draw(t, "fatal-kind")
 	return c
 }
 
@@ -93,6 +110,7 @@ type attemptRec struct {
 }
 
 func checkLoop(t ev.T, test string, c LoopCase) {
+	errFatal = fatalFor(c.FatalKind) // (cases run one after the other within a process)
 	cfg := &retry.RetryPolicyConfiguration{Enabled: c.Enabled, RetryMax: c.Attempts, RetryWaitMin: time.Duration(c.MinUs) * time.Microsecond,
 		RetryWaitMax: time.Duration(c.MaxUs) * time.Microsecond, BackOffEnabled: c.Policy != "constant", LinearBackOffEnabled: c.Policy == "linear"}
 	var ctx context.Context
